@@ -598,6 +598,41 @@ pub fn into_u16_alt<X: Payload>(x: X) -> u16 {
     (x.a() as u16).wrapping_add(1000)
 }
 
+/// targets of the generic custom conversion `into_alt` (one method path for every target, so that a method
+/// applied for the wrong target still type-checks and shows in the value)
+pub trait AltTarget {
+    fn from_alt(a: i8) -> Self;
+}
+
+impl AltTarget for u8 {
+    fn from_alt(a: i8) -> Self {
+        (a as u8).wrapping_add(100)
+    }
+}
+
+impl AltTarget for u16 {
+    fn from_alt(a: i8) -> Self {
+        (a as u16).wrapping_add(1000)
+    }
+}
+
+impl AltTarget for W {
+    fn from_alt(a: i8) -> Self {
+        W(a as i32 + 5000)
+    }
+}
+
+impl AltTarget for T {
+    fn from_alt(a: i8) -> Self {
+        T::mk(8, 88, a)
+    }
+}
+
+pub fn into_alt<X: Payload, R: AltTarget>(x: X) -> R {
+    ev(format!("m_into_alt:{}", pid(&x)));
+    R::from_alt(x.a())
+}
+
 pub fn into_t_alt<X: Payload>(x: X) -> T {
     ev(format!("m_into_t_alt:{}", pid(&x)));
     T::mk(8, 88, x.a())
